@@ -4,6 +4,7 @@ import (
 	"fmt"
 	"os"
 	"path/filepath"
+	"strings"
 	"time"
 
 	"github.com/whatap/golib/config"
@@ -17,6 +18,19 @@ const (
 	tlOneSecond      = "all-edits-within-one-second"
 	tlMixed          = "mixed-gaps"
 	tlDistinctSecond = "every-edit-in-a-later-second"
+	// timelines on which the modification time does not grow with every edit: the file is
+	// replaced by one that carries an OLDER time than the version the poll last saw (cp -p,
+	// rsync -t, mv of a prepared file, restore from backup, clock stepped back), a time far in
+	// the future followed by ordinary ones, or exactly the SAME time with other content
+	tlOlder  = "edits-carry-an-older-mtime"
+	tlFuture = "far-future-mtime-then-normal"
+	tlEqual  = "an-edit-keeps-the-mtime"
+)
+
+// how an edit reaches the file
+const (
+	emInPlace = "rewrite-in-place"
+	emReplace = "rename-prepared-file-over"
 )
 
 type editRec struct {
@@ -24,6 +38,8 @@ type editRec struct {
 	MtimeMs  int64  `json:"mtime_unix_ms"`
 	Reloaded bool   `json:"reload_after"`
 	Content  string `json:"content"`
+	Method   string `json:"method,omitempty"`
+	MtimeRel string `json:"mtime_vs_previous_poll,omitempty"`
 }
 
 // trackCase: one random edit history followed by silence.
@@ -34,7 +50,8 @@ func trackCase(c *vlib.Ctx, i int, r *vlib.Rand) {
 	pfx := fmt.Sprintf("t%d_", i)
 	nkeys := 0
 
-	tl := []string{tlOneSecond, tlOneSecond, tlOneSecond, tlMixed, tlMixed, tlDistinctSecond, tlDistinctSecond, tlDistinctSecond}[r.Intn(8)]
+	tl := []string{tlOneSecond, tlOneSecond, tlOneSecond, tlMixed, tlMixed, tlDistinctSecond, tlDistinctSecond, tlDistinctSecond,
+		tlOlder, tlOlder, tlOlder, tlFuture, tlEqual, tlEqual}[r.Intn(14)]
 	c.SetAdd("timeline_shapes", tl)
 	nEdits := r.Range(2, 7)
 	// pinned modification times
@@ -65,12 +82,26 @@ func trackCase(c *vlib.Ctx, i int, r *vlib.Rand) {
 			times[k] = times[k-1].Add(time.Duration(gap) * time.Millisecond)
 		}
 	default:
+		// also the skeleton of the non-monotone timelines: their deviating times are drawn
+		// when the edit is made (they refer to the time the previous poll saw)
 		times[0] = base.Add(time.Duration(r.Range(0, 999)) * time.Millisecond)
 		for k := 1; k <= nEdits; k++ {
 			times[k] = times[k-1].Add(time.Duration(r.Range(1000, 3500)) * time.Millisecond)
 		}
 	}
-	clean := tl == tlDistinctSecond // no same-second hazard anywhere: deletions, empties, file removal allowed
+	// tlOlder: by how much the older times lie back (0: milliseconds, possibly inside the same
+	// second; 1: seconds; 2: hours; 3: years, or the epoch itself)
+	olderUnit := -1
+	// tlFuture: the edit that carries a time 40 years ahead (a poll always follows it)
+	futureEdit := -1
+	switch tl {
+	case tlOlder:
+		olderUnit = r.Intn(4)
+	case tlFuture:
+		futureEdit = r.Range(1, nEdits-1)
+	}
+	// no same-second hazard anywhere: deletions, empties, file removal allowed
+	clean := tl == tlDistinctSecond || tl == tlFuture || (tl == tlOlder && olderUnit > 0)
 
 	// initial file
 	fm := &fileModel{}
@@ -100,6 +131,13 @@ func trackCase(c *vlib.Ctx, i int, r *vlib.Rand) {
 	if len(fm.keys()) == 0 {
 		addKV(fm, -1)
 	}
+	// tlEqual: a key with a one-digit value, so that an edit can change the content without
+	// changing the size of the file
+	eqKey := ""
+	if tl == tlEqual {
+		eqKey = fmt.Sprintf("%seq.digit", pfx)
+		fm.Items = append(fm.Items, item{Kind: itKV, Key: eqKey, Val: "5", Text: eqKey + "=5"})
+	}
 
 	// observers (own ConfigObserver instance, registered before any edit)
 	co := config.NewConfigObserver()
@@ -124,12 +162,12 @@ func trackCase(c *vlib.Ctx, i int, r *vlib.Rand) {
 		conf = newConf(dir, conffile.WithConfigObserver(co))
 		writeFileAt(path, content, times[0])
 		conf.VerifReloadNow()
-		hist = append(hist, editRec{"create-after-start", times[0].UnixMilli(), true, clipStr(content, 2000)})
+		hist = append(hist, editRec{Op: "create-after-start", MtimeMs: times[0].UnixMilli(), Reloaded: true, Content: clipStr(content, 2000)})
 		c.Count("histories_file_created_after_start", 1)
 	} else {
 		writeFileAt(path, content, times[0])
 		conf = newConf(dir, conffile.WithConfigObserver(co))
-		hist = append(hist, editRec{"initial", times[0].UnixMilli(), true, clipStr(content, 2000)})
+		hist = append(hist, editRec{Op: "initial", MtimeMs: times[0].UnixMilli(), Reloaded: true, Content: clipStr(content, 2000)})
 	}
 	defer conf.VerifStop()
 
@@ -158,9 +196,20 @@ func trackCase(c *vlib.Ctx, i int, r *vlib.Rand) {
 
 	for e := 1; e <= nEdits; e++ {
 		// ---- one external edit ----
+		final := e == nEdits
 		op := ""
 		kk := fm.keys()
+		flip := -1
+		if tl == tlEqual && final && r.Chance(1, 2) {
+			flip = fm.find(eqKey)
+		}
 		switch x := r.Intn(12); {
+		case flip >= 0:
+			// same number of bytes, other content
+			op = "change-one-digit"
+			d := string(rune('0' + (int(fm.Items[flip].Val[0]-'0')+r.Range(1, 9))%10))
+			fm.Items[flip].Val = d
+			fm.Items[flip].Text = eqKey + "=" + d
 		case x < 3 || len(kk) == 0:
 			op = "append"
 			at := -1
@@ -218,10 +267,66 @@ func trackCase(c *vlib.Ctx, i int, r *vlib.Rand) {
 			secOfFirst, contentOfFirst = -1, ""
 			c.Count("reload_points_file_missing", 1)
 		}
-		writeFileAt(path, content, times[e])
-		final := e == nEdits
-		doReload := final || r.Chance(1, 2)
-		hist = append(hist, editRec{op, times[e].UnixMilli(), doReload, clipStr(content, 2000)})
+		// the modification time of this edit on the non-monotone timelines, relative to the
+		// time the previous poll saw
+		method := emInPlace
+		if r.Chance(1, 3) {
+			method = emReplace
+		}
+		switch {
+		case tl == tlOlder:
+			ref := lastReloadTime
+			ms := time.Duration(r.Range(0, 999)) * time.Millisecond
+			switch {
+			case ref.Year() < 1990:
+				times[e] = base.Add(time.Duration(e)*2*time.Second + ms) // back to ordinary times
+			case !(r.Chance(2, 3) || (final && r.Chance(1, 2))):
+				times[e] = ref.Add(time.Duration(r.Range(1000, 3500)) * time.Millisecond)
+			case olderUnit == 0:
+				times[e] = ref.Add(-time.Duration(r.Range(1, 1500)) * time.Millisecond)
+			case olderUnit == 1:
+				times[e] = ref.Add(-time.Duration(r.Range(1, 59))*time.Second - ms)
+			case olderUnit == 2:
+				times[e] = ref.Add(-time.Duration(r.Range(1, 72))*time.Hour - ms)
+			case r.Chance(1, 3):
+				times[e] = time.Unix(0, 0) // what archives and image layers without time stamps carry
+			default:
+				times[e] = ref.Add(-time.Duration(r.Range(1, 20))*365*24*time.Hour - ms)
+			}
+		case tl == tlFuture && e == futureEdit:
+			times[e] = times[e].Add(40 * 365 * 24 * time.Hour)
+		case tl == tlEqual && final:
+			times[e] = lastReloadTime
+			if r.Chance(1, 2) {
+				method = emReplace
+			} else {
+				method = emInPlace
+			}
+		}
+		placeFile(path, content, times[e], method)
+		c.Count("edits_"+method, 1)
+		doReload := final || r.Chance(1, 2) || e == futureEdit || (tl == tlEqual && e == nEdits-1)
+		// how this edit's time relates to what the previous poll saw (label of a finding only)
+		rel := ""
+		switch dt := times[e].Sub(lastReloadTime); {
+		case mapReset:
+			if times[e].UnixNano() == 0 {
+				rel = "epoch-mtime-after-file-missing"
+			}
+		case dt == 0 && method == emReplace:
+			rel = "equal-mtime-edit/replaced-file"
+		case dt == 0 && len(content) == len(lastReloadContent):
+			rel = "equal-mtime-edit/in-place-same-size"
+		case dt == 0:
+			rel = "equal-mtime-edit/in-place-other-size"
+		case dt < 0:
+			rel = "older-mtime-edit"
+		}
+		relText := ""
+		if !mapReset {
+			relText = times[e].Sub(lastReloadTime).String()
+		}
+		hist = append(hist, editRec{Op: op, MtimeMs: times[e].UnixMilli(), Reloaded: doReload, Content: clipStr(content, 2000), Method: method, MtimeRel: relText})
 		if !doReload {
 			continue
 		}
@@ -233,6 +338,23 @@ func trackCase(c *vlib.Ctx, i int, r *vlib.Rand) {
 		conf.VerifReloadNow()
 		c.Count("reload_points", 1)
 		changed := content != lastReloadContent
+		if changed {
+			switch {
+			case strings.HasPrefix(rel, "equal-mtime"):
+				c.Count("reload_points_changed_with_equal_mtime", 1)
+			case rel == "older-mtime-edit":
+				c.Count("reload_points_changed_with_older_mtime", 1)
+				if final {
+					c.Count("final_edits_with_older_mtime", 1)
+				}
+				c.SetAdd("older_mtime_magnitudes", magnitude(lastReloadTime.Sub(times[e])))
+			case rel != "":
+				c.Count("reload_points_"+rel, 1)
+			}
+			if futureEdit > 0 && e > futureEdit {
+				c.Count("reload_points_changed_after_far_future_mtime", 1)
+			}
+		}
 		sameSecond := lastReloadTime.Unix() == times[e].Unix() && !mapReset
 		if times[e].Unix() != secOfFirst {
 			secOfFirst, contentOfFirst = times[e].Unix(), content
@@ -266,7 +388,9 @@ func trackCase(c *vlib.Ctx, i int, r *vlib.Rand) {
 			}
 			if changed && !notified && (final || clean) {
 				key := "FileConfig:observer-not-notified"
-				if sameSecond {
+				if rel != "" {
+					key += "/" + rel
+				} else if sameSecond {
 					key += "/same-second-edit"
 				}
 				d := detail()
@@ -293,6 +417,10 @@ func trackCase(c *vlib.Ctx, i int, r *vlib.Rand) {
 				}
 				cause := "unexplained"
 				switch {
+				case clean && exp == "" && loadedEver[key] != "" && got == refTrim(loadedEver[key]):
+					cause = "empty-value-keeps-previous"
+				case rel != "":
+					cause = rel
 				case sameSecondHazard:
 					cause = "same-second-edit"
 				case exp == "" && loadedEver[key] != "" && got == refTrim(loadedEver[key]):
@@ -346,6 +474,38 @@ func trackCase(c *vlib.Ctx, i int, r *vlib.Rand) {
 	}
 }
 
+// magnitude names the order of a time difference (coverage label).
+func magnitude(d time.Duration) string {
+	switch {
+	case d < time.Second:
+		return "milliseconds"
+	case d < time.Minute:
+		return "seconds"
+	case d < time.Hour:
+		return "minutes"
+	case d < 48*time.Hour:
+		return "hours"
+	case d < 366*24*time.Hour:
+		return "days"
+	}
+	return "years"
+}
+
+// placeFile plays the external editor: rewrite in place, or prepare a file next to the
+// configuration and rename it over it (the way cp -p / rsync / mv / a restore deliver a file:
+// new inode, modification time decided by the source).
+func placeFile(path, content string, mtime time.Time, method string) {
+	if method != emReplace {
+		writeFileAt(path, content, mtime)
+		return
+	}
+	tmp := path + ".prepared"
+	writeFileAt(tmp, content, mtime)
+	if err := os.Rename(tmp, path); err != nil {
+		panic(err)
+	}
+}
+
 // realPollCase uses the production path untouched: the 3 s polling goroutine finds the
 // edit by itself and notifies the observer. Waiting is bounded by a watchdog whose firing is
 // inconclusive, never a verdict.
@@ -381,6 +541,20 @@ func realPollCase(c *vlib.Ctx, i int, r *vlib.Rand) {
 		}
 	case <-time.After(30 * time.Second):
 		c.Inconclusive(fmt.Sprintf("real-poll#%d", i), "no notification from the polling goroutine within the 30 s watchdog")
+		return
+	}
+	// a prepared file with an older modification time is moved over the configuration
+	placeFile(path, key+"=third\n", t0.Add(-time.Hour), emReplace)
+	select {
+	case <-o.ch:
+		_, seen := o.snapshot()
+		c.Count("real_poll_notifications", 1)
+		c.Count("real_poll_notifications_older_mtime", 1)
+		if seen[key] != "third" {
+			c.Fail("FileConfig:observer-saw-stale-value", fmt.Sprintf("polling goroutine notified the observer after a file with an older modification time was moved in, but it saw %q, file holds \"third\"", seen[key]), map[string]interface{}{"path": "real 3 s poll"})
+		}
+	case <-time.After(30 * time.Second):
+		c.Inconclusive(fmt.Sprintf("real-poll#%d", i), "no notification from the polling goroutine within the 30 s watchdog after a file with an older modification time was moved in")
 	}
 }
 
